@@ -422,8 +422,8 @@ class PyOracle:
             self._ctx = (saved[0] + 1, saved[1], saved[2])
         elif nest == "loop":          # for / with bodies: FOR_KIND / WITH_KIND scopes in lian
             self._ctx = (saved[0] + 1, saved[1], True)
-        elif nest == "except":
-            self._ctx = (saved[0] + 1, True, saved[2])
+        elif nest == "except":        # catch_body block -> catch_clause -> body block: not an implicit root
+            self._ctx = (saved[0] + 1, True, True)
         elif nest == "scope":
             self._ctx = (0, False, False)
         for st in stmts:
